@@ -2,6 +2,7 @@ from . import V
 
 A = 'basic_robotics/kinematics/arm_model.py'
 R = 'basic_robotics/kinematics/robot_model.py'
+G = 'basic_robotics/general/faser_general.py'
 VARIANTS = [
     V('toolchange-stale-body-screws', A, ("self._end_effector_home = new_home\n        self._helper_determine_eef_to_last_joint()\n        self._helper_refresh_body_screws()", "self._end_effector_home = new_home\n        self._helper_determine_eef_to_last_joint()"), 'fire', 'Arm.setArbitraryHome'),
     V('initialize-stale-body-screws', A, ("self._base_pos_global = base_pos_global.copy()\n        self._helper_refresh_body_screws()", "self._base_pos_global = base_pos_global.copy()"), 'fire', 'R06.1'),
@@ -24,4 +25,6 @@ VARIANTS = [
     V('refresh-while-loop-from-one', A, ('space screw list.\n        """\n        for i in range(0, self.num_dof):\n            self.screw_list_body[:, i] = (\n                fmr.Adjoint(self._end_effector_home.inv().gTM()) @\n                self.screw_list[:, i])', 'space screw list.\n        """\n        adj = fmr.Adjoint(self._end_effector_home.inv().gTM())\n        k = 1\n        while k < self.num_dof:\n            self.screw_list_body[:, k] = adj @ self.screw_list[:, k]\n            k += 1'), 'fire', 'R06.1'),
     V('benign-linkmass-reversed-range', A, ("for i in range(self.num_dof, 0, -1):", "for i in reversed(range(1, self.num_dof + 1)):"), 'silent'),
     V('linkmass-loop-misses-first-link', A, ("for i in range(self.num_dof, 0, -1):", "for i in reversed(range(2, self.num_dof + 1)):"), 'fire', 'R06.4'),
+    V('benign-numerical-jacobian-inverse-hoisted', A, [("temp = lambda x : self.FK(x).gTM().T.flatten()", "inv_ee_t = ling.inv(self.FK(theta).gTM().T)\n        temp = lambda x : self.FK(x).gTM().T.flatten()"), ("inv_ee_t = ling.inv(self.FK(theta).gTM().T)\n            jac_re", "jac_re")], 'silent'),
+    V('benign-finite-difference-driver-without-reset', G, ("# Reset State If Necessary\n    function_handle(x_init)", "# state is re-established by the caller"), 'silent'),
 ]
